@@ -172,3 +172,38 @@ func runPipeline(c pipeCase) (res pipeResult) {
 	os.Remove(c.Outfile + ".query")
 	return
 }
+
+// pipelineMessages runs only the server half of the pipeline over the first server's files (no forced transmissions)
+// and returns the messages the aggregator emitted.
+func pipelineMessages(c pipeCase) (out []string, errText string) {
+	if len(c.Servers) == 0 {
+		return nil, "no server"
+	}
+	s := c.Servers[0]
+	hostEnvMu.Lock()
+	os.Setenv("DTAIL_HOSTNAME_OVERRIDE", s.Host)
+	agg, err := maprserver.NewAggregate(c.Query)
+	hostEnvMu.Unlock()
+	if err != nil {
+		return nil, "server: " + err.Error()
+	}
+	ctx, cancel := context.WithCancel(context.Background())
+	defer cancel()
+	msgs := make(chan string, 64)
+	for fi, f := range s.Files {
+		ch := make(chan *line.Line, len(f.Lines)+1)
+		agg.NextLinesCh <- ch
+		for li, l := range f.Lines {
+			ch <- line.New(bytes.NewBufferString(l+"\n"), uint64(li+1), 100, fmt.Sprintf("f%d", fi))
+		}
+		close(ch)
+	}
+	go func() {
+		agg.Start(ctx, msgs)
+		close(msgs)
+	}()
+	for m := range msgs {
+		out = append(out, m)
+	}
+	return out, ""
+}
